@@ -531,7 +531,9 @@ Definition close_events (interrupted : bool) (i : itst) : list event :=
     end
   else [].
 
-(* restoreStacks(iterLen): the iterators above iterLen, top first *)
+(* restoreStacks(iterLen): the iterators above iterLen, top first.  The iterator stack is always truncated
+   (since bf68b95 in a deferred dropStacks, i.e. also when a return() call is interrupted); handleThrow re-reads
+   its try frame afterwards (8652ed2) - in this pure model the frame was never aliased, so nothing changes. *)
 Definition restore_stacks (st : vmstate) (iterLen : nat) : vmstate :=
   let n := length (iters st) - iterLen in
   let tail := firstn n (iters st) in
